@@ -10,7 +10,7 @@ PARTIAL = ("Proved per operation (refinement to list operations on the option's 
            "refuse) and the frame property at any depth: an update through one option reference leaves the option at every disjoint reference "
            "exactly as it was (lens_frame), so every by-path setter - successful or refused - touches the addressed option only (C09_api_frame): the "
            "store is a map from references to value sequences and each call is a point update. Sequences are compositions of these; that a path "
-           "names the reference the caller means is C11_resolve. The tie enumerates all sequences to depth 2/3 over 64 calls from two start states "
+           "names the reference the caller means is C11_resolve. The tie enumerates all sequences to depth 2/3 over 66 calls from two start states "
            "plus random sequences to length 40.")
 VARIANT = "asan"
 RULE = ("operation sequences over a finite alphabet of API calls and arguments (scalar/indexed setters, cfg_setlist/addlist, "
@@ -50,6 +50,8 @@ OPS = [
     "SC 0 %s %s" % (hx("l"), hx("note")),
     # a string option set from the very string it holds (the result of a getter handed back to cfg_setopt)
     "SOA 0 %s" % hx("s"), "SOA 0 %s" % hx("sl"), "SSA 0 %s 0" % hx("s"), "SSA 0 %s 0" % hx("sl"), "SSA 0 %s 1" % hx("sl"),
+    # a string list replaced by elements of itself (cfg_setlist(cfg, n, 2, cfg_getnstr(cfg, n, 1), cfg_getnstr(cfg, n, 0)))
+    "SLA 0 %s 1 0" % hx("sl"), "SLA 0 %s 0 0" % hx("sl"),
     # a plain (single) section removed, and mentioned again by a parse: the new instance starts from the declared defaults
     "RS 0 %s" % hx("one"), "PB 0 %s" % hx(b"one { }\n"), "PB 0 %s" % hx(b"one { wl += {z} }\n"),
 ]
